@@ -10,6 +10,7 @@ import (
 	"fmt"
 	"net"
 	"os"
+	"strings"
 	"sync"
 	"syscall"
 	"time"
@@ -36,6 +37,10 @@ type Job struct {
 	EnablePipeline bool   `json:"enable_pipeline,omitempty"`
 	EnableHTTP3    bool   `json:"enable_http3,omitempty"`
 	IdleTimeout    int    `json:"idle_timeout,omitempty"`
+
+	// server-behaviour dimension (hostile.go): exchanges made in sequence on the
+	// one upstream (0 = one)
+	Exchanges int `json:"exchanges,omitempty"`
 }
 
 type Result struct {
@@ -44,6 +49,9 @@ type Result struct {
 	ExchErr string `json:"exch_err,omitempty"` // ExchangeContext error text
 	ReplyOK bool   `json:"reply_ok,omitempty"` // a reply to our question came back
 	Hang    string `json:"hang,omitempty"`
+	// Exch: outcome of every exchange when the case makes several ("ok" or the
+	// error text); ExchErr then holds all error texts joined, ReplyOK = any answered
+	Exch []string `json:"exchanges,omitempty"`
 }
 
 // JobSet is one scheduling unit: a single case, or a sibling group whose
@@ -185,19 +193,38 @@ func runSet(set *JobSet, roots *x509.CertPool, w int) []Result {
 			}
 			job := &set.Jobs[i]
 			q := buildQuery(job.ID)
-			ctx, cancel := context.WithTimeout(context.Background(), time.Duration(job.TimeoutMS)*time.Millisecond)
-			r, err := u.ExchangeContext(ctx, q)
-			cancel()
-			if err != nil {
-				res[i].ExchErr = err.Error()
-			} else if r != nil {
-				m := *r
-				if len(m) >= len(q) && m[0] == q[0] && m[1] == q[1] && m[2]&0x80 != 0 && bytes.Equal(m[12:len(q)], q[12:]) {
-					res[i].ReplyOK = true
-				} else {
-					res[i].ExchErr = fmt.Sprintf("unexpected reply % x", m)
+			n := job.Exchanges
+			if n < 1 {
+				n = 1
+			}
+			var errs []string
+			for k := 0; k < n; k++ {
+				ctx, cancel := context.WithTimeout(context.Background(), time.Duration(job.TimeoutMS)*time.Millisecond)
+				r, err := u.ExchangeContext(ctx, q)
+				cancel()
+				out := "ok"
+				if err != nil {
+					out = err.Error()
+				} else if r != nil {
+					m := *r
+					if len(m) >= len(q) && m[0] == q[0] && m[1] == q[1] && m[2]&0x80 != 0 && bytes.Equal(m[12:len(q)], q[12:]) {
+						res[i].ReplyOK = true
+					} else {
+						out = fmt.Sprintf("unexpected reply % x", m)
+					}
+					pool.ReleaseBuf(r)
 				}
-				pool.ReleaseBuf(r)
+				if out != "ok" {
+					errs = append(errs, out)
+				}
+				if n > 1 {
+					res[i].Exch = append(res[i].Exch, out)
+				}
+			}
+			if n == 1 && len(errs) == 1 {
+				res[i].ExchErr = errs[0]
+			} else if len(errs) > 0 {
+				res[i].ExchErr = strings.Join(errs, " || ")
 			}
 		}
 		for _, u := range ups {
